@@ -49,6 +49,47 @@ func init() {
 	probes["O35"] = probeO35
 	probes["O36"] = probeO36
 	probes["O37"] = probeO37
+	probes["O38"] = probePanics(func() { ucfg.New().SetChild("a", -1, nil) })
+	probes["O39"] = probePanics(func() {
+		c, _ := ucfg.NewFrom(map[string]interface{}{"m": map[string]interface{}{"a": 1}})
+		var t struct{ M map[probeKey]int }
+		c.Unpack(&t)
+	})
+	probes["O40"] = probePanics(func() {
+		c, _ := ucfg.NewFrom(map[string]interface{}{"a": []int{1, 2}})
+		var t struct {
+			A [2]int `validate:"nonzero"`
+		}
+		c.Unpack(&t)
+	})
+	probes["O41"] = probePanics(func() {
+		ucfg.NewFrom(map[string]interface{}{"r": *regexp.MustCompile("a+")})
+	})
+	probes["O42"] = probePanics(func() {
+		c, _ := ucfg.NewFrom(map[string]interface{}{"m": map[string]interface{}{"a": map[string]interface{}{"x": 1}}, "i": map[string]interface{}{"x": 1}})
+		type S struct{ X, Y int }
+		t := struct {
+			M map[string]S
+			I interface{}
+		}{M: map[string]S{"a": {Y: 2}}, I: S{Y: 2}}
+		c.Unpack(&t)
+	})
+	probes["O43"] = probePanics(func() {
+		c, _ := ucfg.NewFrom(map[string]interface{}{"m": map[string]interface{}{"a": []int{1, 2}}})
+		s := []int{9}
+		t := struct{ M map[string]*[]int }{M: map[string]*[]int{"a": &s}}
+		c.Unpack(&t)
+	})
+	probes["O44"] = probePanics(func() {
+		c, _ := ucfg.NewFrom(map[string]interface{}{"a": 1})
+		var p *map[string]int
+		c.Unpack(&p)
+	})
+	probes["O45"] = probePanics(func() {
+		c, _ := ucfg.NewFrom(map[string]interface{}{"a": []int{2}})
+		var t struct{ A *interface{} }
+		c.Unpack(&t)
+	})
 	probes["O23"] = probeO23
 	probes["O24"] = probeO24
 }
@@ -588,4 +629,19 @@ func probeO37() (bool, string) {
 		}
 		return bad, out
 	})
+}
+
+type probeKey string
+
+// probePanics: the defect shows as a panic of the scenario.
+func probePanics(f func()) func() (bool, string) {
+	return func() (rep bool, detail string) {
+		defer func() {
+			if p := recover(); p != nil {
+				rep, detail = true, fmt.Sprint("panic: ", p)
+			}
+		}()
+		f()
+		return false, "returned"
+	}
 }
